@@ -36,6 +36,7 @@ var (
 	fTrace    = flag.String("sim.trace", "", "write the canonical trace here")
 	fDeadline = flag.Float64("sim.deadline", 0, "wall-clock budget in seconds for a batch (0 = none)")
 	fVerbose  = flag.Bool("sim.v", false, "print the trace")
+	fNoWarm   = flag.Bool("sim.nowarm", false, "no throw-away plan first (checks that run one plan per process: every plan is then the first of its process, in exploration and in replay alike)")
 )
 
 // Main is called from each harness's TestSim.
@@ -93,6 +94,9 @@ func Main(t *testing.T, h Harness) {
 // every real plan behave the same wherever it sits in a batch and in a fresh
 // replay process.
 func warmUp(t *testing.T, h Harness, prop, tier string) {
+	if *fNoWarm {
+		return
+	}
 	p := h.Generate(prop, tier, 0)
 	ExecPlan(t, h, p, false)
 }
